@@ -4888,7 +4888,7 @@ func runLengthOfUnknownTuple(rr *RuleRun) {
 
 func init() {
 	register(&Rule{
-		ID: "C08.placeholder-resolved-in-result", Prop: "C08", Also: []string{"C06"}, Floor: 4, Controls: 0,
+		ID: "C08.placeholder-resolved-in-result", Prop: "C08", Also: []string{"C06"}, Floor: 2, Controls: 0,
 		Doc: "in the collection conversion builders (functions of package convert with a target element type parameter), an unknown or empty collection result typed from that parameter (UnknownVal(List/Set/Map(ety…)), ListValEmpty / SetValEmpty / MapValEmpty(ety…)) is built only on paths where the parameter was compared with the dynamic placeholder and found different: when the requested element type is 'any' the result takes the element type of the input, which has already resolved the placeholder",
 		Run: runPlaceholderResolvedInResult,
 	})
